@@ -12,7 +12,9 @@ namespace BfeVerif.C27
 
 abbrev Bytes := List UInt8
 
-def strBytes (s : String) : Bytes := s.toUTF8.toList
+/-- bytes of an ASCII string (all strings the model renders are ASCII: header keys / values / reason
+    phrases; for a non-ASCII character this is NOT UTF-8 — stated as an assumption of C27) -/
+def strBytes (s : String) : Bytes := s.toList.map (fun c => UInt8.ofNat c.toNat)
 
 /-! ## bfe_http.Header as an association list (keys unique, canonical) -/
 
@@ -34,8 +36,15 @@ def Hdr.add : Hdr → String → String → Hdr
   | (k', vs) :: t, k, v => if k' == k then (k', vs ++ [v]) :: t else (k', vs) :: Hdr.add t k v
 
 /-- Header.WriteSubset: keys in sorted order, every value on its own line. -/
+def insKV (kv : String × List String) : Hdr → Hdr
+  | [] => [kv]
+  | x :: t => if kv.1 ≤ x.1 then kv :: x :: t else x :: insKV kv t
+
+/-- keys in ascending order (keys are unique, so any sorting algorithm gives this list) -/
+def sortH (h : Hdr) : Hdr := h.foldr insKV []
+
 def Hdr.lines (h : Hdr) : List (String × String) :=
-  (h.mergeSort (fun a b => decide (a.1 ≤ b.1))).flatMap (fun kv => kv.2.map (fun v => (kv.1, v)))
+  (sortH h).flatMap (fun kv => kv.2.map (fun v => (kv.1, v)))
 
 /-! ## bfe_http.HasToken -/
 
@@ -317,9 +326,24 @@ def statusText (code : Nat) : Option String :=
   | 505 => some "HTTP Version Not Supported" | 511 => some "Network Authentication Required"
   | _ => none
 
-def statusLine (proto11 : Bool) (code : Nat) : String :=
-  (if proto11 then "HTTP/1.1 " else "HTTP/1.0 ") ++ toString code ++ " " ++
-    (match statusText code with | some t => t | none => "status code " ++ toString code)
+def protoBytes (proto11 : Bool) : Bytes :=
+  if proto11 then [72, 84, 84, 80, 47, 49, 46, 49, 32] else [72, 84, 84, 80, 47, 49, 46, 48, 32]   -- "HTTP/1.x "
+
+def digit (d : Nat) : UInt8 := UInt8.ofNat (48 + d)
+
+/-- strconv.Itoa(code): three digits for 100..999 -/
+def codeBytes (code : Nat) : Bytes :=
+  if 100 ≤ code ∧ code ≤ 999 then [digit (code / 100), digit (code / 10 % 10), digit (code % 10)]
+  else strBytes (toString code)
+
+def reasonBytes (code : Nat) : Bytes :=
+  match statusText code with
+  | some t => strBytes t
+  | none => strBytes "status code " ++ codeBytes code
+
+/-- statusLine(req, code) without the CRLF -/
+def statusLine (proto11 : Bool) (code : Nat) : Bytes :=
+  protoBytes proto11 ++ codeBytes code ++ [32] ++ reasonBytes code
 
 def crlf : Bytes := [13, 10]
 
@@ -334,7 +358,7 @@ def hexNatAux : Nat → Nat → Bytes → Bytes
 def hexNat (n : Nat) : Bytes := hexNatAux 64 n []
 
 def renderHead (proto11 : Bool) (code : Nat) (lines : List (String × String)) : Bytes :=
-  strBytes (statusLine proto11 code) ++ crlf ++
+  statusLine proto11 code ++ crlf ++
   lines.flatMap (fun kv => strBytes kv.1 ++ strBytes ": " ++ strBytes kv.2 ++ crlf) ++ crlf
 
 def renderPiece (chunking : Bool) (p : Bytes) : Bytes :=
@@ -454,18 +478,20 @@ def dechunk : Nat → Bytes → Bytes → Option (Bytes × Bytes × Bool)
         else if (t.drop n).take 2 != crlf then none
         else dechunk fuel (t.drop (n + 2)) (acc ++ t.take n)
 
+def isDig (c : UInt8) : Bool := 48 ≤ c && c ≤ 57
+
+/-- `HTTP/1.x SSS[ reason]` -/
 def parseStatusLine (l : Bytes) : Option (Bool × Nat) :=
-  -- "HTTP/1.x SSS reason"
-  let s := bytesStr l
-  let pre := (s.take 9).toString
-  let p11 := pre == "HTTP/1.1 "
-  if !(p11 || pre == "HTTP/1.0 ") then none
-  else
-    let code := ((s.drop 9).take 3).toString
-    let after := ((s.drop 12).take 1).toString
-    if code.length == 3 && code.toList.all Char.isDigit && (after == " " || after == "") then
-      code.toNat?.map (fun c => (p11, c))
-    else none
+  let pre := l.take 9
+  let p11 := pre == protoBytes true
+  if !(p11 || pre == protoBytes false) then none
+  else match (l.drop 9).take 3 with
+    | [a, b, c] =>
+      let sp := (l.drop 12).take 1
+      if isDig a && isDig b && isDig c && (sp == [32] || sp == []) then
+        some (p11, (a.toNat - 48) * 100 + (b.toNat - 48) * 10 + (c.toNat - 48))
+      else none
+    | _ => none
 
 /-- Reference parser for ONE response at the start of `bs` (answering a HEAD request iff `isHead`).
     `none` = not a well-formed HTTP/1.x response head / body coding. -/
